@@ -1,4 +1,5 @@
 """C12 -- independence of packaging and of homogeneous rescaling (T1, H1)."""
+from ..rules import numpy_rules as NP
 from ..rules import dtype_rules as D
 from ..rules import cache_rules as CA
 from ..rules import hyp_rules as H
@@ -28,6 +29,7 @@ def run(ctx):
     ctx.do(H.rule_h1)
     ctx.do(H.rule_h2)
     ctx.do(D.rule_t2)
+    ctx.do(NP.rule_np2)
     ctx.do(CA.rule_query_purity, "CoxeterGroup", ["bilinear_form", "cartan_matrix", "tits_vinberg_rep"])
     ctx.do(D.rule_t3, [CORE, HYP, 'geometry_tools/projective.py'])
     ctx.do(D.rule_lk1, [HYP, 'geometry_tools/projective.py', 'geometry_tools/complex_projective.py'])
